@@ -62,8 +62,11 @@ def run_solve(st, opts):
         A = spd(tt, N, cfg["r"], dt, gen)
     else:
         A, _ = diagdom(tt, N, cfg["r"], dt, gen)
-    xt = rand_tt(tt, N, cfg["r"], gen, dt)
-    b = (A @ xt).round(1e-14)
+    if cfg["data"] == "decay":
+        b = rand_tt(tt, N, cfg["r"], gen, dt)            # random right-hand side: the solution has larger ranks
+    else:
+        xt = rand_tt(tt, N, cfg["r"], gen, dt)
+        b = (A @ xt).round(1e-14)
     Ad = dense_op(A)
     bd = project.dense(b.cores).reshape(-1)
     g = None
